@@ -72,7 +72,13 @@ CHECKS['C04'] = dict(
           'Tie: the real compute() is traced through wrappers around h5py write/flush/attr/create calls; the observed '
           'trace is (a) evaluated by WellFormed in Lean, (b) compared with the modelled trace, (c) replayed in the Lean '
           'crash model whose predicted survivors are compared with the real files for an injected crash before EVERY '
-          'event; every survivor is re-opened, resumed with another batch size and compared with the clean run; '
+          'event; model_trace_checkpointed - the modelled loop, flushing what the code flushes, marks a position only when '
+          'its result is already durable in the results file (for every pending set / partition / placement); '
+          '(d) the observed trace is required to pass the same stronger acceptance wfStrong - a completion mark is written only after its '
+          'result was flushed to the results file (oracle checkpoint-missing: without per-batch checkpoints the durability '
+          'clause would be void); every survivor is re-opened, resumed with another batch size and compared with the clean '
+          'run; the same for interrupted groups in the legacy form (last_pixel only), for the map function itself raising, '
+          'and for compute(override=True) on a survivor; '
           'thorough adds successive interruptions and real os._exit kills.'),
     note=COMMON_NOTE + 'HDF5 write-back below flush() is not modelled: the kill survivor is the bytes as of the last flush '
          '(file copy taken right after each flush), as the property defines it; real kills are sampled in the thorough tier.',
@@ -87,7 +93,9 @@ CHECKS['C13'] = dict(
           'A_B_000, A_A_005 are never counted for A); any history of create/delete requests keeps succeeding; '
           'find_results_groups(d, t) returns a group created for (d2, t2) iff d2 = d, the normalised tool names agree and - '
           'inside the file of the dataset - the group does not record ANOTHER dataset of the same name as its source; '
-          'tool/source provenance and recovery of the source dataset. The zero-padded formatter and the digit parser '
+          'tool/source provenance and recovery of the source dataset; parents_independent - for ANY history of requests '
+          'addressed in turn to several parent groups of one file (runFile), the members of parent p and the outcome of '
+          'every request addressed to it are exactly what the sub-history addressed to p produces on p alone. The zero-padded formatter and the digit parser '
           'are proved inverse. Correspondence: random and (thorough) exhaustive short histories on real HDF5 files over a '
           'vocabulary closed under prefix/substring relations.'),
     note=COMMON_NOTE + 'ASCII digits only (Unicode decimal digits accepted by str.isdecimal are outside the generated vocabulary); '
@@ -116,7 +124,10 @@ CHECKS['C05'] = dict(
           'otherwise (iff neither exists) a fresh group; groups of other datasets/tools, with different parameters, or with '
           'malformed/missing records (wrong dtype/length/rank, non-dataset, values outside {0,1}, neither record) are '
           'never returned or resumed; a forced fresh computation is always fresh and construction leaves every group '
-          'exactly as found. Correspondence: histories of raw-h5py result groups of every kind, same-file and separate '
+          'exactly as found; complete_iff_nothing_pending - the decision and the run read the progress record alike: for '
+          'every usable record (status dataset or legacy last_pixel) a group is classified complete exactly when the '
+          'pending list compute() derives from the same record (C03 initialStatus) is empty, and partial exactly when it '
+          'is not. Correspondence: histories of raw-h5py result groups of every kind, same-file and separate '
           'file, then a real Process is constructed and compute(override) run; provenance oracle with harness tags.'),
     note=COMMON_NOTE + 'Known finding KF-D15: in a separate target file the source is identified by dataset name only. '
          'Parameter matching inherits C16 (float-array tolerance).',
